@@ -157,6 +157,10 @@ func (d *Def) makeDefineArgVariables(
 			return argVariables, false, err
 		}
 
+		if argT == nil {
+			return argVariables, isBlockGiven, nil
+		}
+
 		if argT.IsTargetIdentifier("end") {
 			p.Unget()
 			return argVariables, false, err
@@ -369,6 +373,19 @@ func (d *Def) getMethodNameAndSetIsStatic(
 				t.ToString(),
 				ctx.IsDefineStatic,
 			)
+
+		if objectT == nil {
+			objectT = base.MakeIdentifier(t.ToString())
+
+			base.SetValueT(
+				ctx.GetFrame(),
+				ctx.GetClass(),
+				ctx.GetMethod(),
+				t.ToString(),
+				objectT,
+				ctx.IsDefineStatic,
+			)
+		}
 
 		if objectT.ID == "" {
 			objectT.ID = base.GenId()
@@ -694,7 +711,7 @@ func (d *Def) Evaluation(
 	methodT := d.makeDefineMethodT(p, ctx, method, args, returnT, isBlockGiven)
 
 	// def hoge= || def [] || def []=
-	if method[len(method)-1] == '=' || method == "[]" || method == "[]=" {
+	if method != "" && (method[len(method)-1] == '=' || method == "[]" || method == "[]=") {
 		for _, arg := range args {
 			base.SetValueT(
 				methodT.DefinedFrame,
